@@ -143,7 +143,7 @@ def run_property(pid, tier, seed, meta, known, scratch, a):
                         mjobs.append((u.get('unit'), mu, ex.submit(cbmc.run_unit, p, scratch, [mu], '#mutant%d' % i)))
             for nm, mu, j in mjobs:
                 mr = j.result()
-                mutant_results.append({'unit': nm, 'mutant': '%s: %s ==> %s' % mu, 'caught': mr.status == 'fail' or bool(mr.structure_failed),
+                mutant_results.append({'unit': nm, 'mutant': '%s: %s ==> %s' % (mu[0].replace('\x00', ' '), mu[1], mu[2]), 'caught': mr.status == 'fail' or bool(mr.structure_failed),
                                        'status': mr.status, 'reason': mr.reason, 'failed': [o['name'] for o in mr.failed[:3]]})
     undecided = [r for r in results if r.status == 'undecided']
     violations = []
